@@ -246,6 +246,9 @@ def parse_contract_file(path, unit=None, seen=None):
                 cur_fn = None
             elif d == '@fn':
                 cur_fn = FnSpec(arg, '%s:%d' % (os.path.basename(path), i))
+                # a later @fn with the same selector in the same @mod replaces the earlier one
+                # (an including unit refines / completes the contract of an included file)
+                cur_mod.fns = [f for f in cur_mod.fns if f.selector != arg]
                 cur_mod.fns.append(cur_fn)
                 cur_loop = None
             elif d == '@end':
